@@ -57,7 +57,11 @@ func NewResponseRecorder(w http.ResponseWriter) *ResponseRecorder {
 // WriteHeader records the status code and calls the
 // underlying ResponseWriter's WriteHeader method.
 func (r *ResponseRecorder) WriteHeader(status int) {
-	r.status = status
+	// an informational response (such as 103 Early Hints) is
+	// not the status of the response: the final one follows
+	if status < 100 || status >= 200 || status == http.StatusSwitchingProtocols {
+		r.status = status
+	}
 	r.ResponseWriterWrapper.WriteHeader(status)
 }
 
@@ -154,6 +158,14 @@ func (rb *ResponseBuffer) Header() http.Header {
 // the header to the response.
 func (rb *ResponseBuffer) WriteHeader(status int) {
 	if rb.wroteHeader {
+		return
+	}
+	if status >= 100 && status < 200 && status != http.StatusSwitchingProtocols {
+		// an informational response (such as 103 Early Hints) goes out
+		// right away with the header fields set so far; whether to
+		// buffer is decided with the final header
+		rb.CopyHeader()
+		rb.ResponseWriterWrapper.WriteHeader(status)
 		return
 	}
 	rb.wroteHeader = true
